@@ -211,6 +211,11 @@ class SlicesSplit(RewriteRuleClassBase):
             return check_result.fail("Last dimension is not equal to End1.")
         if last_dim // 2 != b1[0]:
             return check_result.fail("Last dimension is not equal to Begin1.")
+        if last_dim % 2 != 0:
+            # Split(num_outputs=2) gives the larger chunk first; the two slices give it last.
+            return check_result.fail("Last dimension is odd.")
+        if context.model.opset_imports.get("", 18) < 18:
+            return check_result.fail("Split has the num_outputs attribute only from opset 18.")
         return check_result
 
     def rewrite(self, op, x, begin0, end0, axes0, begin1, end1, axes1):
